@@ -32,6 +32,10 @@ pub struct C15Case {
     /// the first root is given twice (every entry below it is then visited twice)
     #[serde(default)]
     pub repeat_root: bool,
+    /// directory listings report no entry types (DT_UNKNOWN, as on file systems without the filetype
+    /// feature): fclones has to lstat every entry, and that call can fail too
+    #[serde(default)]
+    pub dtype_unknown: bool,
 }
 
 fn case_strategy() -> BoxedStrategy<C15Case> {
@@ -46,8 +50,8 @@ fn case_strategy() -> BoxedStrategy<C15Case> {
             p.near_dup_pairs = 1;
             p.resplit = 0;
             let op = OptProfile { transform_w: 0.15, cache_w: 0.25, links: false, isolate: false, rf: false, max_roots: roots };
-            (tree_strategy(&p), gopts_strategy(op), prop::bool::weighted(0.3), proptest::collection::vec(0u16..u16::MAX, 6), prop::bool::weighted(0.25), prop::bool::weighted(0.25)).prop_map(
-                move |(tree, mut opts, ext4, pair_seeds, skip, repeat_root)| {
+            (tree_strategy(&p), gopts_strategy(op), prop::bool::weighted(0.3), proptest::collection::vec(0u16..u16::MAX, 6), prop::bool::weighted(0.25), prop::bool::weighted(0.25), prop::bool::weighted(0.3)).prop_map(
+                move |(tree, mut opts, ext4, pair_seeds, skip, repeat_root, dtype_unknown)| {
                     opts.threads = vec![];
                     // without the final stage a file is judged by its prefix and suffix alone: a
                     // failed read of either must still keep it out of every group
@@ -65,7 +69,7 @@ fn case_strategy() -> BoxedStrategy<C15Case> {
                             t.io = TrIo::Pipe;
                         }
                     }
-                    C15Case { tree, roots, opts, ext4, faults: None, pair_seeds, repeat_root }
+                    C15Case { tree, roots, opts, ext4, faults: None, pair_seeds, repeat_root, dtype_unknown }
                 },
             )
         })
@@ -100,6 +104,9 @@ fn shim_run(cd: &CaseDir, c: &C15Case, roots: &[std::ffi::OsString], faults: &[I
         r = r.env("FCLONES_VERIF_DISK_KIND", d);
     }
     r = r.env("LD_PRELOAD", SHIM).env("FCV_ROOT", cd.tree()).env("FCV_LOG", cd.base.join("shim.log"));
+    if c.dtype_unknown {
+        r = r.env("FCV_DTYPE_UNKNOWN", "1");
+    }
     if !faults.is_empty() {
         let spec: Vec<String> = faults
             .iter()
@@ -561,7 +568,7 @@ fn walk_case_strategy() -> BoxedStrategy<C15Case> {
                 opts.min0 = hidden;
                 // every selected file is listed, so that a change of the selection is visible
                 opts.rf = RfOpt::Over(0);
-                C15Case { tree, roots, opts, ext4: false, faults: None, pair_seeds, repeat_root: false }
+                { let du = pair_seeds[0] % 3 == 0; C15Case { tree, roots, opts, ext4: false, faults: None, pair_seeds, repeat_root: false, dtype_unknown: du } }
             })
         })
         .boxed()
@@ -579,7 +586,7 @@ pub fn check(tier: Tier) -> i32 {
     cleanup_process_scratch();
     ctx.finish(
         "fault_enumeration",
-        "proptest-generated scenario trees (4-9 files up to 140 KB, nested directories, hard links, near-duplicates; tmpfs and ext4; in a quarter of the scenarios the first root is given twice) x group options (cache, transform - fed through a pipe or reading the original file itself as $IN under --no-copy -, pinned device kind, hash fn, stage knobs). The read-side libc calls (stat, lstat, open, n-th read, opendir, n-th readdir, readlink, FIEMAP ioctl) of a clean run are recorded per tree entry with the LD_PRELOAD interposer; then for EVERY entry strictly below the roots, EVERY recorded call occurrence (capped at 6-8 per function and path) and every applicable errno (EACCES, EIO, ENOENT) one run is made with that single call failing, plus sampled pairs on two different entries and, for every two files of equal length, the same n-th read failing in both; a quarter of the scenarios run with --skip-content-hash (pinned SSD, suffix stage above 64 KiB). Metamorphic oracle: the report must equal a clean run on the tree with the affected entry physically removed (the file; the sub-tree for directory faults; the children not yet returned for a readdir fault; nothing for FIEMAP) - or, for faults on metadata calls that fclones may tolerate, the clean report of the full tree; exit status 0; a warning unless the errno is ENOENT; a file whose open/read failed is in no group. After a faulted run with --cache the next run on the same cache, without fault, must equal the clean run. A second generator takes the trees of the C09 generator (ignore files on several levels, hidden names, file/directory symlinks, nesting 0-4) with --rf-over 0 (every selected file is listed) so that faults also hit ignore files, links and nested directories during the walk. evaluations = faulted runs; non-trivial = the faulted entry is (or contains) a member of a group of the clean report and the fault hits open/read.",
+        "proptest-generated scenario trees (4-9 files up to 140 KB, nested directories, hard links, near-duplicates; tmpfs and ext4; in a quarter of the scenarios the first root is given twice; in 30 % directory listings carry no entry types (DT_UNKNOWN through the interposer), so that every entry is lstat-ed and that call is faulted too) x group options (cache, transform - fed through a pipe or reading the original file itself as $IN under --no-copy -, pinned device kind, hash fn, stage knobs). The read-side libc calls (stat, lstat, open, n-th read, opendir, n-th readdir, readlink, FIEMAP ioctl) of a clean run are recorded per tree entry with the LD_PRELOAD interposer; then for EVERY entry strictly below the roots, EVERY recorded call occurrence (capped at 6-8 per function and path) and every applicable errno (EACCES, EIO, ENOENT) one run is made with that single call failing, plus sampled pairs on two different entries and, for every two files of equal length, the same n-th read failing in both; a quarter of the scenarios run with --skip-content-hash (pinned SSD, suffix stage above 64 KiB). Metamorphic oracle: the report must equal a clean run on the tree with the affected entry physically removed (the file; the sub-tree for directory faults; the children not yet returned for a readdir fault; nothing for FIEMAP) - or, for faults on metadata calls that fclones may tolerate, the clean report of the full tree; exit status 0; a warning unless the errno is ENOENT; a file whose open/read failed is in no group. After a faulted run with --cache the next run on the same cache, without fault, must equal the clean run. A second generator takes the trees of the C09 generator (ignore files on several levels, hidden names, file/directory symlinks, nesting 0-4) with --rf-over 0 (every selected file is listed) so that faults also hit ignore files, links and nested directories during the walk. evaluations = faulted runs; non-trivial = the faulted entry is (or contains) a member of a group of the clean report and the fault hits open/read.",
         &["faults are injected at libc level by path and occurrence number, independent of the schedule", "the harness runs as root, so permission bits cannot make files unreadable"],
     )
 }
